@@ -234,7 +234,7 @@ theorem keep_loop {c0 : Cell} {x : Nat} {a : App} {sid : Nat} {s : Srv} (hh : Ke
     (hq : ∀ q ∈ qs, q.1 = x → q.2 = false) (hk : Keep c0 x a sid ci) : Keep c0 x a sid cj := by
   induction hl with
   | nil => exact hk
-  | @cons q qs' c c1 c2 a0 ha0 hchain _ ih =>
+  | @cons q qs' c c1 c2 a0 ha0 hchain _ _ ih =>
     have hturn : a0.id = x → a0.server = some sid ∧ a0.renew = false ∧ q.2 = false := by
       intro e
       obtain ⟨_, _, ai, hai, hsv, _, _, hrn⟩ := hk
